@@ -167,3 +167,11 @@ Proof. vm_compute. reflexivity. Qed.
 Example e2e_ok_failed_post_handshake_close_racing :
   e2e_ok ((11, true, false, false, true, 2), (true, false), ([1; 1], 1, 2, 0), (0, true), (1, 3, 2))%N = true.
 Proof. vm_compute. reflexivity. Qed.
+(* Close() during the dual-stack version negotiation: ErrConnClosed (3), not the closed
+   transport's own error (7) - commit 0805f5b *)
+Example e2e_ok_close_during_negotiation_closed :
+  e2e_ok ((0, false, true, true, false, 1), (false, false), ([1], 3, 0, 0), (0, true), (1, 3, 0))%N = true.
+Proof. vm_compute. reflexivity. Qed.
+Example e2e_ok_close_during_negotiation_rejects_transport_error :
+  e2e_ok ((0, false, true, true, false, 1), (false, false), ([1], 7, 0, 0), (0, true), (1, 3, 0))%N = false.
+Proof. vm_compute. reflexivity. Qed.
